@@ -366,3 +366,41 @@ def freeze(v):
     if isinstance(v, dict):
         return ("D",) + tuple((freeze(k), freeze(x)) for k, x in v.items())
     return v
+
+
+def run_mutations(m, events, target):
+    """Replay, in program order, the live calls that read or mutate the dict bound to `target` (get/pop/setdefault/update/`del d[k]`/
+    `d[k] = v`) on the model's own dict object, binding each such call term to the value it produced at that moment."""
+    d = m.env[target]
+    for g, k, pl, ln, q in events:
+        try:
+            if not m.live(g):
+                continue
+        except Unknown:
+            continue
+        if k == "call" and pl[1][0] == "attr" and pl[1][1] == target:
+            meth = pl[1][2]
+            args, kwargs = m.args_of(pl)
+            if meth == "pop":
+                if args[0] in d:
+                    v = d.pop(args[0])
+                elif len(args) > 1:
+                    v = args[1]
+                else:
+                    v = Raised("KeyError")
+            elif meth == "get":
+                v = d.get(args[0], args[1] if len(args) > 1 else None)
+            elif meth == "setdefault":
+                v = d.setdefault(args[0], args[1] if len(args) > 1 else None)
+            elif meth == "update":
+                d.update(*args, **kwargs)
+                v = None
+            else:
+                continue
+            m.bind(pl, v)
+        elif k == "delete" and pl[0] == "idx" and pl[1] == target:
+            d.pop(m.ev(pl[2]), None)
+            m.memo.clear()
+        elif k == "store" and pl[0][0] == "idx" and pl[0][1] == target:
+            d[m.ev(pl[0][2])] = m.ev(pl[1])
+            m.memo.clear()
